@@ -1,9 +1,9 @@
 package props
 
 import (
-	"encoding/base64"
 	"bytes"
 	"context"
+	"encoding/base64"
 	"fmt"
 	"math"
 	"math/big"
@@ -13,8 +13,8 @@ import (
 	"unicode/utf8"
 
 	"github.com/cloudwego/dynamicgo/conv"
-	dhttp "github.com/cloudwego/dynamicgo/http"
 	"github.com/cloudwego/dynamicgo/conv/j2t"
+	dhttp "github.com/cloudwego/dynamicgo/http"
 	"github.com/cloudwego/dynamicgo/meta"
 	"github.com/cloudwego/dynamicgo/thrift"
 	"github.com/cloudwego/gopkg/protocol/thrift/base"
@@ -478,6 +478,7 @@ func c02WideStructs(c *h.Ctx) {
 }
 
 func runC02(c *h.Ctx) {
+	defer nameCasePhase(c, "j2t") // key spellings from name-case annotations (last: registers the agw./janus. annotations process-wide)
 	defer c02RootValues(c)
 	defer c02WideStructs(c)
 	defer c02BinaryAfterGrowth(c)
